@@ -437,7 +437,21 @@ pub fn check(case: &Case, st: &mut Stats) -> CheckResult {
   // (c) identity rewrite
   if case.identity {
     let literal_has_newline = scan_template(&case.template).iter().any(|(t, _)| matches!(t, Tok::Lit(l) if l.contains('\n')));
-    if !literal_has_newline && exp.indentation_claimed {
+    // the template is one line, so every variable sits on the template's first line; the no-op
+    // consequence needs each multi-line capture to start on a source line indented like the
+    // match site (a capture that starts on a deeper-indented later line, `} else {`, is shifted
+    // by the rule itself)
+    let site_indent = indent_at(&case.source, spec.node_start);
+    let starts_at_site_indent = spec
+      .holes
+      .iter()
+      .map(|h| (h.start, h.end))
+      .chain(spec.run.iter().map(|r| (r.start, r.end)))
+      .all(|(s0, e0)| !case.source[s0..e0].contains('\n') || indent_at(&case.source, s0) == site_indent);
+    if !starts_at_site_indent {
+      st.label("identity_not_claimed(capture starts on a deeper line)");
+    }
+    if !literal_has_newline && exp.indentation_claimed && starts_at_site_indent {
       st.label("identity_rewrite_checked");
       let orig = &case.source[spec.node_start..spec.node_end];
       if got != orig {
